@@ -130,7 +130,8 @@ def witness_of(e):
 
 
 def judge(ctx, binary, cases, events, tag, seen):
-    """TLC judges the real outputs; every rejection is re-executed and re-judged before it is reported."""
+    """TLC judges the real outputs; every rejection is re-executed and re-judged before it is reported.
+    A case of a history (h > 0) is re-executed with the folds that preceded it in its history (shared action objects)."""
     drift = set()
     rej = judge_cases(ctx, SPEC, "ActionsTrace", events, tag, drift=drift)
     drift -= set(rej)
@@ -146,13 +147,39 @@ def judge(ctx, binary, cases, events, tag, seen):
             seen.add(key)
             if nontrivial(e):
                 ctx.cov["distinct_nontrivial"] += 1
+    done_h = set()
     for i in rej[:40]:
-        c = dict(cases[i]); c["id"] = 0
-        ev2 = execute(ctx, binary, [c], tag + "-repro")
-        if not judge_cases(ctx, SPEC, "ActionsTrace", ev2, tag + "-repro"):
+        h = cases[i].get("h", 0)
+        if h:
+            if h in done_h:
+                continue
+            done_h.add(h)
+            j = i
+            while j > 0 and cases[j - 1].get("h", 0) == h:
+                j -= 1
+            hist = [dict(c, id=k, h=1) for k, c in enumerate(cases[j:i + 1])]
+        else:
+            hist = [dict(cases[i], id=0)]
+        ev2 = execute(ctx, binary, hist, tag + "-repro")
+        r2 = judge_cases(ctx, SPEC, "ActionsTrace", ev2, tag + "-repro")
+        if not r2:
             raise Broken("rejection not reproduced (%s): %s" % (tag, json.dumps(events[i])[:800]))
-        ctx.violation(witness_of(ev2[0]), {"case": c, "event": ev2[0]})
+        w = witness_of(ev2[r2[0]])
+        if h:
+            w["class"] += "-in-a-history-of-folds-over-shared-action-objects"
+            w["folds_before"] = [[a["k"] for a in c["seq"]] for c in hist[:r2[0]]]
+        ctx.violation(w, {"history": hist, "events": ev2, "rejected": r2})
     return rej
+
+
+def rand_history(rng):
+    """a few folds over one small pool of actions: the same action values (= the same objects) recur within and across folds"""
+    side = rng.choice(["req", "req", "resp"])
+    mk = (lambda: rand_req_action(rng, rng.choice([0.0, 0.0, 0.15]))) if side == "req" else (lambda: rand_resp_action(rng))
+    pool = [mk() for _ in range(rng.randint(2, 5))]
+    if rng.random() < 0.5 and len(pool) >= 2:          # two different actions configured with the same header map
+        pool[1] = dict(pool[1], h=pool[0]["h"]) if pool[1]["k"] != "noop" else pool[1]
+    return [{"side": side, "via": "routing", "seq": [rng.choice(pool) for _ in range(rng.randint(1, 5))]} for _ in range(rng.randint(2, 5))]
 
 
 def run(ctx):
@@ -218,8 +245,27 @@ def run(ctx):
             k = next(i for i, e in enumerate(events) if nontrivial(e) and e["out"]["names"])
             ctx.sample({"kind": "generated-case", "seq": events[k]["seq"], "reference": refs[k], "real_out": events[k]["out"]})
             gen_events, gen_rejected = events, set(rej)
+            gen_cases_first = cases
     ctx.cov["exhaustive"] = True
     ctx.notes.append("generated input space replayed completely: %d cases" % total_gen)
+
+    # (2b) histories: the generated cases again, in seeded random order, five folds per history drawing their actions from one
+    # pool (equal values = the same action instance / the same header map object), then random histories over small pools.
+    # Each fold is judged on its own: its result may depend only on the values of its sequence.
+    hc = [dict(c) for c in gen_cases_first]
+    ctx.rng.shuffle(hc)
+    nh = (len(hc) + 4) // 5
+    for i, c in enumerate(hc):
+        c["id"], c["h"] = i, 1 + i // 5
+    for k in range(300 if not T else 3000):
+        for c in rand_history(ctx.rng):
+            hc.append(dict(c, id=len(hc), h=nh + 1 + k))
+    events = execute(ctx, binary, hc, "hist")
+    rej = judge(ctx, binary, hc, events, "hist", seen)
+    reuse = sum(1 for c in hc if len({json.dumps(a, sort_keys=True) for a in c["seq"]}) < len(c["seq"]))
+    ctx.log("histories over shared action objects: %d folds in %d histories (%d folds repeat an action instance), %d rejected" % (
+        len(hc), hc[-1]["h"], reuse, len(rej)))
+    ctx.notes.append("histories of folds over shared action instances / header maps: %d folds, %d with a repeated instance" % (len(hc), reuse))
 
     # (3) code -> spec: seeded random sequences through routing, seeded random remedy lists through the runner fold
     n_rt, n_rn, maxlen = (1500, 600, 7) if not T else (12000, 5000, 9)
@@ -274,12 +320,14 @@ def run(ctx):
 def replay(ctx, path):
     obj = json.load(open(path))
     binary = ctx.build_harness("c07")
-    c = obj["replay"]["case"]
-    ev = execute(ctx, binary, [c], "replay")
-    print(json.dumps(ev[0]))
-    if judge_cases(ctx, SPEC, "ActionsTrace", ev, "replay"):
+    hist = obj["replay"].get("history") or [obj["replay"]["case"]]
+    ev = execute(ctx, binary, hist, "replay")
+    for e in ev:
+        print(json.dumps(e))
+    rj = judge_cases(ctx, SPEC, "ActionsTrace", ev, "replay")
+    if rj:
         print("VIOLATION property=C07 replay=%s" % path)
-        print("   the specification (ActionsP) does not permit this output for this sequence")
+        print("   the specification (ActionsP) does not permit the output of fold %s of this history for its sequence" % rj)
         return 1
     print("replay accepted by the specification")
     return 0
